@@ -57,6 +57,10 @@ Canon(v, hk, b) ==
     [] v = 7 /\ hk = "ch" -> W7!CanonCH(b) [] v = 7 /\ hk = "chv" -> W7!CanonCHV(b)
 
 Expressible(v, p) == IF v = 6 THEN W6!Expressible(p) ELSE W7!Expressible(p)
+\* accepted by the reader but refused / asserted on by the writer (observations, DESIGN section 6)
+KnownGap(v, p) ==
+  \/ p.t = "connless" /\ Len(p.data) > MAX_PAYLOAD
+  \/ v = 7 /\ p.t = "ctrl" /\ p.c \in {"connect", "token"} /\ p.rt = TOKEN_NONE
 AllowedW(v, p) == IF v = 6 THEN W6!AllowedW(p) ELSE W7!AllowedW(p)
 ZInput(v, p) == IF v = 6 THEN W6!ZInput(p) ELSE W7!ZInput(p)
 WriteWith(v, p, z, cap) == IF v = 6 THEN W6!WriteWith(p, z, cap) ELSE W7!WriteWith(p, z, cap)
@@ -117,7 +121,7 @@ PropRead(ro) ==
   \cup Cond("read_panic_on_decompression-panics-on-uncompressed", ro.rpod.r \in {"ok", "err", "skip"})
   \cup Cond("decompress_if_needed-panics", ro.din.r \in {"false", "true", "err"})
   \cup Cond("is_initial-panics", ro.init.r \in {"ok", "skip"})
-  \cup Cond("chunks-iter-panics", ro.ci.r \in {"ok", "skip"})
+  \cup Cond("chunks-iter-panics-or-never-ends", ro.ci.r \in {"ok", "skip"})
   \cup Cond("slice-out-of-bounds", ro.inb)
   \cup Cond("write-outside-scratch-buffer", ro.canary)
 
@@ -170,7 +174,10 @@ SameChunks(list, data, cl) ==
 \* hascl: the chunk area of p was built by the library's write_chunk from the chunk list cl
 \* strict: also demand the absence of warnings (C05); C06 only asks that the value survives
 PropRT(v, blk, hascl, cl, strict) ==
-  IF ~Expressible(v, blk.p) THEN {}          \* outside the writer's domain (size limits, asserted preconditions)
+  \* outside the writer's domain nothing is promised.  For generated values (strict) the domain is
+  \* Expressible; for values the reader accepted only the documented gaps are exempt, so that a reader
+  \* that accepts anything else the writer cannot express is caught.
+  IF (strict /\ ~Expressible(v, blk.p)) \/ (~strict /\ KnownGap(v, blk.p)) THEN {}
   ELSE
     Cond("write-panics", blk.wr.r \in {"ok", "err"})
     \cup Cond("write-outside-buffer", blk.wcanary)
